@@ -24,6 +24,7 @@ structure LinkP (p : Packet) (o : Order) : Prop where
   withBf : o.withBf = (p.ptype == .onRecv)
   recipient : o.recipient = p.orig.getD p.target
   fulfiller : o.fulfiller.isSome ↔ p.orig.isSome
+  nofwd : p.fwd = none      -- a packet the packet-forward middleware sent never has an order
 
 def OrderLinkedX (pk : List Packet) (o : Order) : Prop := ∃ p ∈ pk, LinkP p o
 
@@ -88,11 +89,11 @@ theorem invX_foldl_revertPacket : ∀ (l : List Packet) {s : St}, InvX s → Inv
 
 /-- a new pending packet is stored and gets its demand order: whatever order sat on the key is replaced -/
 theorem invX_record_order {s : St} (h : InvX s) (p : Packet) (hs : p.status = .pending) (ho : p.orig = none)
-    (a : Addr) (k : Bytes) (s1 : St) (price fee : Int) :
+    (hfw : p.fwd = none) (a : Addr) (k : Bytes) (s1 : St) (price fee : Int) :
     InvX (setOrder (setPacket (addByAddr s a k) p) (newOrder s1 p price fee p.target)) := by
   intro o hmem hst
   rcases mem_setOrder.mp hmem with rfl | ⟨hq', hne⟩
-  · refine ⟨p, mem_setPacket.mpr (Or.inl rfl), ⟨rfl, hs, rfl, rfl, rfl, ?_, ?_⟩⟩
+  · refine ⟨p, mem_setPacket.mpr (Or.inl rfl), ⟨rfl, hs, rfl, rfl, rfl, ?_, ?_, hfw⟩⟩
     · show p.target = p.orig.getD p.target
       rw [ho]; rfl
     · show (none : Option Addr).isSome ↔ p.orig.isSome
@@ -104,7 +105,7 @@ theorem invX_record_order {s : St} (h : InvX s) (p : Packet) (hs : p.status = .p
     exact hne ⟨hst, (hl.id.symm.trans hk : o.id = pkey p)⟩
 
 theorem invX_eibcOnRecv {s s' : St} {p : Packet} {m : Memo} {a : Addr} {k : Bytes} (h : InvX s)
-    (hs : p.status = .pending) (ho : p.orig = none)
+    (hs : p.status = .pending) (ho : p.orig = none) (hfw : p.fwd = none)
     (he : eibcOnRecv (setPacket (addByAddr s a k) p) p m = .ok s') : InvX s' := by
   unfold eibcOnRecv at he
   split at he
@@ -114,10 +115,10 @@ theorem invX_eibcOnRecv {s s' : St} {p : Packet} {m : Memo} {a : Addr} {k : Byte
     · split at he
       · cases he
       · cases he
-        exact invX_record_order h p hs ho a k _ _ _
+        exact invX_record_order h p hs ho hfw a k _ _ _
 
 theorem invX_eibcOnRefund {s s' : St} {p : Packet} {a : Addr} {k : Bytes} (h : InvX s)
-    (hs : p.status = .pending) (ho : p.orig = none) (fresh : ∀ q ∈ s.packets, pkey q ≠ pkey p)
+    (hs : p.status = .pending) (ho : p.orig = none) (hfw : p.fwd = none) (fresh : ∀ q ∈ s.packets, pkey q ≠ pkey p)
     (he : eibcOnRefund (setPacket (addByAddr s a k) p) p = .ok s') : InvX s' := by
   unfold eibcOnRefund at he
   split at he
@@ -125,7 +126,7 @@ theorem invX_eibcOnRefund {s s' : St} {p : Packet} {a : Addr} {k : Bytes} (h : I
   · split at he
     · cases he
     · cases he
-      exact invX_record_order h p hs ho a k _ _ _
+      exact invX_record_order h p hs ho hfw a k _ _ _
 
 theorem oframe_sendOpen {s s' : St} {a c d amt} (hs : sendOpen s a c d amt = .ok s') : OFrame s s' := by
   unfold sendOpen at hs
@@ -160,7 +161,7 @@ theorem invX_recvAuth {s0 : St} (c seq ph : Nat) (d : RecvData) (h0 : InvX s0) :
           · split
             · exact hfail
             · rename_i s2 he
-              exact invX_eibcOnRecv h0 rfl rfl he
+              exact invX_eibcOnRecv h0 rfl rfl rfl he
 
 theorem invX_recvForward {s0 : St} (c seq ph : Nat) (d : RecvData) (k : Nat) (h0 : InvX s0) :
     InvX (recvForward s0 c seq ph d k).1 := by
@@ -235,11 +236,15 @@ theorem invX_ackOpen {s s' : St} {c seq ph : Nat} {isTimeout isErr : Bool} (h4 :
           split at ha
           · cases ha
           · split at ha
-            · split at ha
+            · rename_i hrf
+              have hfw : (mkSentPacket s0 x (sentType isTimeout) ph ((some rid).getD []) (!isTimeout && isErr)).fwd = none := by
+                simp only [Bool.and_eq_true, Option.isNone_iff_eq_none] at hrf
+                exact hrf.2
+              split at ha
               · cases ha
               · rename_i s2 he
                 cases ha
-                exact invX_eibcOnRefund h0 rfl rfl fresh (eibcRefundHandler_ok he)
+                exact invX_eibcOnRefund h0 rfl rfl hfw fresh (eibcRefundHandler_ok he)
             · cases ha
               exact invX_setPacket_fresh h0 _ _ _ fresh
 
@@ -327,7 +332,7 @@ theorem invX_setOrderFulfilled {s s' : St} {o : Order} {f : Addr} {c : Option Ad
   have hq' : q ∈ (setOrder s { o with fulfiller := some f }).orders := hq
   rcases mem_setOrder.mp hq' with rfl | ⟨hq1, hne⟩
   · refine ⟨retarget p (c.getD f), mem_setPacket.mpr (Or.inl rfl),
-      ⟨hl.key, hl.pend, hl.id, hl.amount, hl.withBf, ?_, ?_⟩⟩
+      ⟨hl.key, hl.pend, hl.id, hl.amount, hl.withBf, ?_, ?_, hl.nofwd⟩⟩
     · show o.recipient = (some p.target).getD (c.getD f)
       rw [hl.recipient, horig]; rfl
     · show (some f).isSome ↔ (some p.target).isSome
@@ -396,7 +401,7 @@ theorem invX_msgUpdateFee {s s' : St} {a id fee} (h : InvX s) (hk : KeysNodup s.
   obtain ⟨p0, hp0, hl0⟩ := h o hom hs
   have e0 : p0 = p := keysNodup_eq hk hpm hp0 (hl0.key.trans hpk.symm)
   have hl : LinkP p o := e0 ▸ hl0
-  exact invX_setOrder h _ (fun _ => ⟨p, hpm, ⟨hl.key, hl.pend, hl.id, rfl, rfl, hl.recipient, hl.fulfiller⟩⟩)
+  exact invX_setOrder h _ (fun _ => ⟨p, hpm, ⟨hl.key, hl.pend, hl.id, rfl, rfl, hl.recipient, hl.fulfiller, hl.nofwd⟩⟩)
 
 theorem invX_msgDeleteLps {owner : Addr} : ∀ (ids : List Nat) {s s' : St}, InvX s → msgDeleteLps s owner ids = .ok s' → InvX s'
   | [], s, s', h, hu => by unfold msgDeleteLps at hu; cases hu; exact h
